@@ -235,6 +235,10 @@ def run(res, replay=None):
             if x != y and len(res.mismatches) < 10:
                 res.mismatches.append((c, "Range/Compare: implementation %s | model %s" % (x, y)))
     res.extra["range_compare_cases"] = len(rc_cases)
+    # (a') the row codec (Model/TupleCodec.v, theorems of Props/C06Tuple.v) against tuple.NewTupleFromSchema / GetValue / GetValueInBytes:
+    # bytes, Size() and every column read back, for random schemas and rows (lib/tuplecorr.py, verifharness tuplecodec)
+    import tuplecorr
+    tuplecorr.run_corr(res, random.Random(res.seed * 7919 + 6), 300 if res.tier == "quick" else 4000)
     # (b) the listed known findings are replayed
     known_probes(res)
     import btreeprobe
